@@ -403,6 +403,32 @@ def norm_hb(e):
     return o
 
 
+def explore_groups(bdir, plan, workdir, seed, proj, statuses, keep_events=True):
+    """explore every plan item, project and de-duplicate per item while reading (raw events are kept for the representative
+    of each distinct stream only); returns (groups, number of executions kept, status counts of all executions)"""
+    from concurrent.futures import ThreadPoolExecutor
+
+    def run_item(item):
+        k, (cls, progs, par) = item
+        files = vlib.run_harness(bdir, 'lockh', [cls], progs, workdir, mode=par.get('mode', 'dfs'), pb=par.get('pb', 2),
+                                 max_exec=par.get('max_exec', 4000), seed=seed, tag='%s%d' % (cls, k))
+        cnt = {}
+        groups = vlib.stream_groups(files, proj, keep=lambda ex: ex.status in statuses, keep_events=keep_events, counters=cnt)
+        for f in files:
+            try:
+                os.unlink(f)
+            except OSError:
+                pass
+        return groups, cnt
+    glists, counts = [], {}
+    with ThreadPoolExecutor(max_workers=6) as pool:
+        for groups, cnt in pool.map(run_item, list(enumerate(plan))):
+            glists.append(groups)
+            for k_, n_ in cnt.items():
+                counts[k_] = counts.get(k_, 0) + n_
+    return vlib.merge_groups(glists), sum(n_ for k_, n_ in counts.items() if k_ in statuses), counts
+
+
 def hb_trace_check(prop, tier, seed, plan):
     bdir = vlib.build(4)
     workdir = wdir(prop)
@@ -411,24 +437,13 @@ def hb_trace_check(prop, tier, seed, plan):
     for cls, progs, par in plan:
         for p in progs:
             prog_text[p.split()[1]] = (cls, p)
-    from concurrent.futures import ThreadPoolExecutor
-
-    def run_item(item):
-        k, (cls, progs, par) = item
-        return explore_lock(bdir, cls, progs, workdir, par.get('pb', 2), par.get('max_exec', 4000), seed,
-                            mode=par.get('mode', 'dfs'), tag='%s%d' % (cls, k))
-    execs = []
-    with ThreadPoolExecutor(max_workers=6) as pool:
-        for ex in pool.map(run_item, list(enumerate(plan))):
-            execs.extend(e for e in ex if e.status in ('ok', 'stuck'))
-    skipped = 0
 
     def proj(ex):
         st, ok = vlib.hb_stream(ex, prog_text[ex.prog][1])
         if not ok:
             return [{'e': 'skip'}]
         return [norm_hb(e) for e in st]
-    groups = vlib.dedup_histories(execs, proj)
+    groups, n_execs, _ = explore_groups(bdir, plan, workdir, seed, proj, ('ok', 'stuck'))
     groups = [g for g in groups if g[0] and g[0][0].get('e') != 'skip']
     hists = [g[0] for g in groups]
     reps = [g[1] for g in groups]
@@ -461,7 +476,7 @@ def hb_trace_check(prop, tier, seed, plan):
                 mo_table[e['site'] + ' ' + e['k'].replace('casf', 'cas(fail)')] = e['mo']
     cov = {
         'states': max(1, st['distinct']), 'transitions': max(1, st['states']),
-        'traces_validated_against_impl': len(execs), 'distinct_operation_streams': len(hists),
+        'traces_validated_against_impl': n_execs, 'distinct_operation_streams': len(hists),
         'events_validated': st['events'], 'programs': len(prog_text),
         'memory_orders_observed': dict(sorted(mo_table.items())),
         'samples': [{'program': reps[i].prog, 'schedule': reps[i].sched,
@@ -500,19 +515,7 @@ def stream_check(prop, tier, seed, plan, proj, spec_name, cfg_name, describe, st
     for cls, progs, par in plan:
         for p in progs:
             prog_text[p.split()[1]] = (cls, p)
-    from concurrent.futures import ThreadPoolExecutor
-
-    def run_item(item):
-        k, (cls, progs, par) = item
-        return explore_lock(bdir, cls, progs, workdir, par.get('pb', 2), par.get('max_exec', 4000), seed,
-                            mode=par.get('mode', 'dfs'), tag='%s%d' % (cls, k))
-    execs = []
-    allex = []
-    with ThreadPoolExecutor(max_workers=6) as pool:
-        for ex in pool.map(run_item, list(enumerate(plan))):
-            allex.extend(ex)
-            execs.extend(e for e in ex if e.status in statuses)
-    groups = vlib.dedup_histories(execs, lambda ex: proj(ex, prog_text[ex.prog][1]))
+    groups, n_execs, counts = explore_groups(bdir, plan, workdir, seed, lambda ex: proj(ex, prog_text[ex.prog][1]), statuses)
     groups = [g for g in groups if g[0]]
     hists = [g[0] for g in groups]
     reps = [g[1] for g in groups]
@@ -532,8 +535,8 @@ def stream_check(prop, tier, seed, plan, proj, spec_name, cfg_name, describe, st
                                       'spec': spec_name}})
     cov = {
         'states': max(1, st['distinct']), 'transitions': max(1, st['states']),
-        'traces_validated_against_impl': len(execs), 'distinct_streams': len(hists),
-        'events_validated': st['events'], 'programs': len(prog_text), 'exec_status': status_counts(allex),
+        'traces_validated_against_impl': n_execs, 'distinct_streams': len(hists),
+        'events_validated': st['events'], 'programs': len(prog_text), 'exec_status': counts,
         'samples': [{'program': reps[i].prog, 'schedule': reps[i].sched, 'stream_head': hists[i][:16]}
                     for i in range(0, len(hists), max(1, len(hists) // 2))][:2],
         'rejected_streams': len(rej), 'unexamined_streams': st.get('unexamined', 0),
